@@ -13,7 +13,7 @@ META = {
     "functions": ["typelib.serdes.iteritems", "typelib.serdes.itervalues", "typelib.serdes._is_iterable_of_pairs",
                   "typelib.serdes.get_items_iter", "typelib.serdes._make_fields_iterator", "typelib.serdes._namedtupleitems"],
     "bounds": {
-        "quick": "sequences (list/tuple/deque), sets, dicts (dict/OrderedDict/MappingProxy/custom Mapping), one-shot iterators and "
+        "quick": "sequences (list/tuple/deque), sets, dicts (dict/OrderedDict/an OrderedDict reordered in place/a dict subclass overriding items()/MappingProxy/custom Mapping), element kinds incl. None-first and falsy-first, one-shot iterators and "
                  "generators, of symbolic length <= 3 over unbounded symbolic ints, pairs, triples; symbolic str / bytes len <= 3; "
                  "instances of 10 structured flavours with symbolic field values; 20 s per condition",
         "thorough": "length <= 4, str len <= 4; 90 s per condition",
@@ -44,7 +44,11 @@ def _same_list(a, b):
 
 def _elems(kind, a, b, c, n, L):
     """n symbolic in [0, L]; elements by kind: 0 ints, 1 pairs, 2 triples."""
-    if kind == 0:
+    if kind == 3:  # falsy and None elements, None first
+        xs = [None, a, 0, ""][:L]
+    elif kind == 4:
+        xs = [0, None, b, ()][:L]
+    elif kind == 0:
         xs = [a, b, c, a + b][:L]
     elif kind == 1:
         xs = [(a, b), (b, c), (c, a), (a, a)][:L]
@@ -62,7 +66,7 @@ CONTAINERS = {
 def make_seq(cname, kind, L, timeout):
     ctor = CONTAINERS[cname]
     oneshot = cname in ("iter", "gen", "listiter_of_tuple")
-    kname = ("ints", "pairs", "triples")[kind]
+    kname = ("ints", "pairs", "triples", "none_first", "falsy_first")[kind]
 
     def body(a: int, b: int, c: int, n: int):
         S = _ser()
@@ -91,7 +95,7 @@ def make_seq(cname, kind, L, timeout):
 
 MAPS = {
     "dict": dict, "OrderedDict": collections.OrderedDict, "MappingProxy": lambda d: types.MappingProxyType(dict(d)),
-    "MyMapping": O.MyMapping,
+    "MyMapping": O.MyMapping, "OrderedDict_moved": O.moved_ordered, "ReversedDict": O.ReversedDict,
 }
 
 
@@ -113,7 +117,7 @@ def make_map(mname, keykind, L, timeout):
             if i < n:
                 d[keys[i]] = vals[i]
         x = ctor(d)
-        exp_items = [(k, v) for k, v in d.items()]
+        exp_items = [(k, v) for k, v in x.items()]  # the mapping's own view (a reordered OrderedDict, an overriding subclass)
         ok, it = attempt(lambda: list(S.iteritems(x)))
         ok2, vs = attempt(lambda: list(S.itervalues(x)))
         reached()
@@ -257,7 +261,7 @@ def conditions(tier, seed):
     L = 3 if tier == "quick" else 4
     out = []
     for cname in CONTAINERS:
-        for kind in (0, 1, 2):
+        for kind in (0, 1, 2, 3, 4):
             out.append(make_seq(cname, kind, L, to))
     for mname in MAPS:
         for kk in ("str", "int"):
